@@ -6,6 +6,7 @@ import json
 import random
 import re
 
+import c06
 import calls
 import gen
 import tlaparse
@@ -97,7 +98,7 @@ def de_bank_methods() -> dict[str, str]:
 
 
 def run(ctx: Ctx) -> dict:
-    env = ctx.frozen(banks=True)
+    env = c06.algos_env(ctx, ctx.frozen(banks=True))
     if ctx.replay:
         calls.replay(ctx, "TraceNational", env, None, keyfn)
         return {}
